@@ -61,7 +61,7 @@ C19_summary(r) ==
 \* store's active tasks, or the children of the epic given with --epic)
 Base(r) == IF r.flag = "epic_ready" THEN P!VChildren(r.view, r.epic) ELSE Active(r.view)
 C19_summary_noready(r) ==
-  (r.flag \in {"ready", "epic_ready"} /\ Len(r.rows) = 0 /\ ~r.quiet /\ r.summary_printed) =>
+  (r.flag \in {"ready", "epic_ready"} /\ r.sentence # "" /\ Scope(r) = {} /\ ~r.quiet /\ r.summary_printed) =>
      \A b \in {"inprogress", "blocked", "error"} :
         r.summary[b] = Cardinality({t \in Base(r) : Bucket(r.view, t) = b})
 C19_ready_rows(r) == r.flag = "epic_ready" =>
